@@ -32,6 +32,11 @@ def program_for_selection(sel_units, sel_consts, io, units):
     L.append('#include "au/au.hh"')
     L.append("#endif")
     L.append("using namespace au;")
+    # (a product of two selected units may cancel to a raw number - ohms * siemens - which has neither .in() nor a unit)
+    L.append("inline double vf_num(double x) { return x; }")
+    L.append("template <typename U, typename R> double vf_num(au::Quantity<U, R> q) { return q.in(U{}); }")
+    L.append('inline const char *vf_lab(double) { return "(raw number)"; }')
+    L.append("template <typename U, typename R> const char *vf_lab(au::Quantity<U, R>) { return unit_label(U{}); }")
     L.append("#if defined(VF_SECOND_TU)")
     L.append("double vf_second_tu() { return (mag<3>() == mag<3>()) ? 1.0 : 0.0; }")
     L.append("#else")
@@ -47,7 +52,7 @@ def program_for_selection(sel_units, sel_consts, io, units):
     for a in sel_units:
         for b in sel_units:
             if a < b:
-                L.append(f'  {{ auto p = {units[a].maker}(2.0) * {units[b].maker}(4.0); printf("{a}*{b} %.17g %s\\n", p.in({units[a].maker} * {units[b].maker}), unit_label(decltype(p)::unit)); }}')
+                L.append(f'  {{ auto p = {units[a].maker}(2.0) * {units[b].maker}(4.0); printf("{a}*{b} %.17g %s\\n", vf_num(p), vf_lab(p)); }}')
                 break
     for c, h in sel_consts:
         L.append(f'  {{ auto q = {c}.as<double>(); printf("{c} %.17g %s\\n", q.in(decltype(q)::unit), unit_label(decltype(q)::unit)); }}')
@@ -60,7 +65,7 @@ def program_for_selection(sel_units, sel_consts, io, units):
     return "\n".join(L) + "\n"
 
 
-def api_statements(rep):
+def api_statements(rep, tier="quick"):
     R = rep
     integral = rep not in ("double", "float")
     S = []
@@ -130,6 +135,9 @@ def api_statements(rep):
     # explicit-rep forms with a target rep other than the operand's rep: every <T> entry point, for quantities, points and constants
     # (casts, braces and conversions inside these are where compilers disagree about narrowing)
     targets = [("int", "int"), ("double", "double"), ("float", "float"), ("long long", "long long"), ("short", "short"), ("unsigned", "unsigned"), ("signed char", "signed char")]
+    if tier == "quick":  # four of the seven per run: int, float, short and one of the others
+        trnd = core.rng("c20targets", rep)
+        targets = targets[:1] + targets[2:3] + targets[4:5] + [trnd.choice([targets[1], targets[3], targets[5], targets[6]])]
     for tname, T in targets:
         if T == rep or (T == "int" and rep == "int32_t"):
             continue
@@ -348,8 +356,12 @@ def run(chk, which="C20"):
     # ---- 3. API-surface programs: accepted/rejected alike and identical output in every configuration -----
     all_cfgs = core.CONFIGS if tier == "thorough" else [(core.GXX, "c++14"), (core.CLANGXX, "c++14"), (core.GXX, "c++20"), (core.CLANGXX, "c++17")]
     classes = list(REPCLASSES.items()) if tier == "thorough" else [(k, v) for k, v in REPCLASSES.items() if k in ("floating", "int32", "subint", "unsigned", "subint16")]
-    for cname, rep in classes:
-        stmts = api_statements(rep)
+    api_counts = []
+
+    def do_class(cr):
+        cname, rep = cr
+        n_eval = 0
+        stmts = api_statements(rep, tier)
         probes = [{"id": i + 1, "expect": None, "stmt": s, "text": f"void vf_p{i + 1}() {{ vf_stmt = {i + 1}; {s} }}"} for i, s in enumerate(stmts)]
 
         def do_cfg(cfg):
@@ -431,6 +443,10 @@ def run(chk, which="C20"):
         if ref and len(chk.cov["samples"]) < 6:
             chk.sample({"api_program_rep": rep, "statements": len(probes), "accepted_by_all": len(accepted_everywhere), "configurations": len(all_cfgs), "trace_md5": hashlib.md5(ref[1].encode()).hexdigest()})
 
+        api_counts.append(n_eval)
+
+    core.pmap(do_class, classes, workers=len(classes))
+    n_eval += sum(api_counts)
     chk.add_evals(n_eval, len(distinct))
     chk.cov["rule"] = ("single-file packages generated by tools/bin/make-single-file from the current tree for seeded selections of unit/constant headers x {io, noio}; a generated program using exactly the selection is built "
                        "against the package alone (no repo include path, header included twice, two translation units linked) and against the multi-header tree, both under ASan+UBSan, outputs compared; every non-test header "
